@@ -1069,7 +1069,7 @@ SUBCHECKS = [
     SubCheck("value_numpy",
              strategy=lambda: scalar_cases(G.PROFILE_NUMPY, routes=("call", "call", "get_function", "copy", "kwargs")),
              check=check_value, mode="pure", budget={"quick": 1200, "thorough": 40000},
-             shards={"quick": 6, "thorough": 12}, rule=NT_VALUE),
+             shards={"quick": 5, "thorough": 12}, rule=NT_VALUE),
     SubCheck("value_numba",
              strategy=lambda: scalar_cases(G.PROFILE_FULL, routes=("get_function", "get_function", "single_arg"),
                                            indexed=True, layouts=("flat", "flat", "scalar", "mixed", "outer")).filter(
@@ -1081,7 +1081,7 @@ SUBCHECKS = [
                                            indexed=True, layouts=("flat", "flat", "scalar", "mixed", "outer")).filter(
                  lambda c: not (c["route"] == "single_arg" and any(v["n"] for v in c["vars"]))),
              check=check_value_numba, mode="nojit", budget={"quick": 240, "thorough": 10000},
-             shards={"quick": 2, "thorough": 4},
+             shards={"quick": 1, "thorough": 4},
              rule=NT_VALUE + " (numba backend's code generation executed with NUMBA_DISABLE_JIT=1: breadth)"),
     SubCheck("single_arg",
              strategy=lambda: scalar_cases(G.PROFILE_NUMPY, indexed=False, routes=("single_arg",),
@@ -1117,3 +1117,5 @@ SUBCHECKS = [
 
 for _s in SUBCHECKS:
     _s.time_limit = {"quick": 110, "thorough": 1500}
+# the runner starts the jobs in this order on 16 slots: the long ones first
+SUBCHECKS.sort(key=lambda s: -s.shards["quick"])
